@@ -11,7 +11,7 @@ use crate::{
     gen::{cfg_strategy, lattice, rng_strategy, triple_strategy, Cfg, Triple, TripleSpec},
     refimpl::{ref_nonce, vec_gens, Proof},
     runner::{guarded, setup, sub, CaseLog, PropertyDef, RunCtx, Tier, INCONCLUSIVE},
-    tapx::{challenge_scalar, challenges, tapped},
+    tapx::{challenge_scalar, challenges, tapped_prover},
 };
 
 /// The nonces of one proof, read as coordinates of its points
@@ -88,7 +88,7 @@ pub fn oracle(_ctx: &RunCtx, spec: &FreshSpec, log: &mut CaseLog) -> Result<(), 
     let cfg = t.cfg;
     let g_ids: Vec<u128> = (0..cfg.ext).map(g_id).collect();
     let run = |rng: RngSpec| -> Result<(Vec<u8>, Nonces), String> {
-        let (p, ev) = tapped(|| guarded(|| F::prove(&mut t.transcript(), &t.st, &t.w, &mut rng.make())));
+        let (p, ev) = tapped_prover(|| guarded(|| F::prove(&mut t.transcript(), &t.st, &t.w, &mut rng.make())));
         let p = setup(p, "the prover refused or panicked on a valid witness (C01's subject)")?;
         let bytes = p.to_bytes();
         let n = extract(&bytes, &challenges(&ev), &g_ids, cfg.bits, None)?;
@@ -152,7 +152,7 @@ pub fn oracle(_ctx: &RunCtx, spec: &FreshSpec, log: &mut CaseLog) -> Result<(), 
         let seed = crate::gen::rand_scalar(&mut crate::gen::chacha(spec.base.bulk ^ 0x5eed_a66));
         let mut st2 = t.st.clone();
         st2.seed_nonce = Some(seed);
-        let (p, ev) = tapped(|| guarded(|| F::prove(&mut t.transcript(), &st2, &t.w, &mut spec.base.rng.make())));
+        let (p, ev) = tapped_prover(|| guarded(|| F::prove(&mut t.transcript(), &st2, &t.w, &mut spec.base.rng.make())));
         if let Ok(p) = p? {
             let n = extract(&p.to_bytes(), &challenges(&ev), &g_ids, cfg.bits, None)?;
             let all = n.all();
